@@ -375,10 +375,10 @@ def find_check_cache(context):
                 extra.append(path)
 
         regenerate = regenerate or results[0] != found or results[1] != extra
-        # Fill in the find cache with our results so that if/when we actually
-        # regenerate our build files, we can just reuse the cached values.
-        context.build['find_cache'].add(file_filter, found, extra)
-        context.build['find_dirs'].update(seen_dirs)
+        # Note: don't fill in the find cache with these results. If we do end
+        # up regenerating, `find_files` needs to create the objects for the
+        # "extra" files too (and in the same order as a regular configuration)
+        # so that they're added to the source distribution.
 
     if not regenerate:
         # We don't want to regenerate. To make sure the build backend is happy,
